@@ -586,17 +586,25 @@ def eval_model(ctx, jobs):
             elif j[0] == "pairs":
                 res[key] = h
             else:
-                rdims, cells = h
+                rdims, rest = h
                 D = _prod(rdims)
                 C = _prod(j[1]["ocol"])
                 M = _prod(j[1]["orow"]) * C + 1
+                ncells, cells = rest[0], []
+                for w in rest[1:]:
+                    grp = []
+                    while w:
+                        grp.append((w & 0xFFFFFFFFFF) - 1)
+                        w >>= 40
+                    cells.extend(reversed(grp))
+                if len(cells) != ncells:
+                    raise Broken("coq-eval:" + name, "packed table does not decode")
                 mm = {}
                 for n in cells:
-                    if n < 0:
-                        pos = -n - 1
+                    pos, code = divmod(n, M)
+                    if code == 0:
                         mm[(pos // D, pos % D)] = "error"
                     else:
-                        pos, code = divmod(n, M)
                         mm[(pos // D, pos % D)] = ((code - 1) // C, (code - 1) % C)
                 res[key] = (rdims, mm)
     return res
